@@ -56,13 +56,23 @@ fn multi_verify_total_1path() {
     kani::cover!(r.is_err(), "rejecting run reachable");
 }
 
-/// Two terminator paths of concrete position depths (d1, d2) with symbolic path bits, symbolic
-/// claimed depths (any usize), a concrete number `ns` of symbolic siblings, any root.  The
-/// harnesses enumerate small (d1, d2, ns): this covers prefix-related paths, equal paths, claimed
-/// depths shorter/longer than the terminal and too few siblings.  Bounded in these three numbers.
-fn two_terminators(d1: u16, d2: u16, ns: usize) {
-    let a = MultiPathProof { terminal: PathProofTerminal::Terminator(trie_pos_with_depth(d1)), depth: kani::any() };
-    let b = MultiPathProof { terminal: PathProofTerminal::Terminator(trie_pos_with_depth(d2)), depth: kani::any() };
+/// Two terminator paths with CONCRETE path bits (given as bit strings), symbolic claimed depths
+/// (any usize), `ns` symbolic siblings, any root.  Bit-slice bounds stay concrete this way, which
+/// is what CBMC needs (symbolic path bits in the two-path branch exhausted 14 GB).  The harnesses
+/// enumerate prefix-related, equal, diverging and unordered pairs: bounded to these shapes.
+fn pos_from_bits(bits: &[u8]) -> crate::trie_pos::TriePosition {
+    let mut p = crate::trie_pos::TriePosition::new();
+    let mut i = 0;
+    while i < bits.len() {
+        p.down(bits[i] == 1);
+        i += 1;
+    }
+    p
+}
+
+fn two_concrete_terminators(pa: &[u8], pb: &[u8], ns: usize) {
+    let a = MultiPathProof { terminal: PathProofTerminal::Terminator(pos_from_bits(pa)), depth: kani::any() };
+    let b = MultiPathProof { terminal: PathProofTerminal::Terminator(pos_from_bits(pb)), depth: kani::any() };
     let mut siblings: Vec<Node> = Vec::with_capacity(ns);
     let mut i = 0;
     while i < ns {
@@ -80,15 +90,17 @@ macro_rules! two_term_harness {
         #[kani::proof]
         #[kani::unwind(6)]
         fn $name() {
-            two_terminators($a, $b, $n);
+            two_concrete_terminators(&$a, &$b, $n);
         }
     };
 }
-two_term_harness!(multi_verify_total_2term_1_2_s1, 1, 2, 1);
-two_term_harness!(multi_verify_total_2term_1_1_s0, 1, 1, 0);
-two_term_harness!(multi_verify_total_2term_2_2_s1, 2, 2, 1);
-two_term_harness!(multi_verify_total_2term_2_3_s2, 2, 3, 2);
-two_term_harness!(multi_verify_total_2term_0_1_s0, 0, 1, 0);
+two_term_harness!(multi_verify_2term_prefix_0_01, [0u8], [0u8, 1], 1);
+two_term_harness!(multi_verify_2term_prefix_0_00, [0u8], [0u8, 0], 1);
+two_term_harness!(multi_verify_2term_diverge_0_1, [0u8], [1u8], 0);
+two_term_harness!(multi_verify_2term_diverge_00_01, [0u8, 0], [0u8, 1], 1);
+two_term_harness!(multi_verify_2term_root_and_1, [0u8; 0], [1u8], 0);
+two_term_harness!(multi_verify_2term_equal_01_01, [0u8, 1], [0u8, 1], 1);
+two_term_harness!(multi_verify_2term_deep_010_011, [0u8, 1, 0], [0u8, 1, 1], 2);
 
 #[cfg(test)]
 include!("/verif/.build/playback/core_multi_proof.inc");
